@@ -41,7 +41,7 @@ def flow_case(rng):
         eid += 1
         ops.append("build e=%d res=r batch=%d dir=out" % (eid, rng.choice([0, 1, 1, 1, 1, 2, 3, 4])))
         if rng.random() < 0.5:
-            ops.append("exit e=%d" % eid)
+            ops.append("exit e=%d%s" % (eid, " err=1" if rng.random() < 0.25 else ""))   # a traced error must not change admission/accounting
     return ops
 
 
@@ -66,7 +66,7 @@ def hs_case(rng):
         eid += 1
         ops.append("build e=%d res=r batch=%d dir=out args=%s" % (eid, rng.choice([1, 1, 1, 2, 3]), rng.choice(vals)))
         if rng.random() < 0.5:
-            ops.append("exit e=%d" % eid)
+            ops.append("exit e=%d%s" % (eid, " err=1" if rng.random() < 0.25 else ""))   # a traced error must not change admission/accounting
     return ops
 
 
